@@ -282,7 +282,463 @@ def target_parser_subcircuit():
     return (f"{PR.MOD}:{qual}", PR.MOD, qual, run)
 
 
+def _tok_float(st, T0):
+    """type invariant of number tokens: values are floats (possibly +-inf; nan cannot come out of float(text) of digits)"""
+    from pyvc.values import NEG_INF, POS_INF, INF_AXIOMS
+    j = fresh("j", PR.I)
+    st.pc += INF_AXIOMS + [z3.ForAll([j], z3.And(PR.tnum(j) >= NEG_INF, PR.tnum(j) <= POS_INF))]
+
+
+def target_parser_param_limit():
+    qual = "Parser.param_limit"
+
+    def run(sess: Session):
+        from pyvc.values import NEG_INF, POS_INF
+        for upper in (True, False):
+            ex = _parser_executor(sess, contracts=())
+            num = PR.install_token_values(ex)
+            st = State()
+            me, T0, S0 = PR.new_parser(st)
+            _tok_float(st, T0)
+            value = fresh("value", z3.RealSort())
+            outs = _pcall(ex, qual, st, me, args=[value], kwargs={"upper": z3.BoolVal(upper)})
+
+            def post(val, s1):
+                T1, S1 = PR.cur(s1, me, "_tokens"), PR.cur(s1, me, "_stack")
+                sess.check("decreases", s1.pc, PR.progress_post(T1, T0), 0, label=f"[upper={upper}]tokens-strictly-consumed")
+                sess.check("frame", s1.pc, z3.And(S1.lo == S0.lo, PR.same_below(S1, S0)), 0, label=f"[upper={upper}]stack untouched")
+                first = z3.Select(T0.arr, T0.lo)
+                second = z3.Select(T0.arr, T0.lo + 1)
+                r = num(val)
+                spec = z3.If(PR.kind(first) == PR.K["Number"],
+                             z3.If(z3.And(T0.length() >= 2, PR.kind(second) == PR.K["Percent"]), value * PR.tnum(first) / 100, PR.tnum(first)),
+                             POS_INF if upper else NEG_INF)
+                sess.check("post", s1.pc, r == spec, 0, label=f"[upper={upper}]limit = number | value*number/100 for a percentage | +-inf for 'inf'")
+            _check_exits(sess, outs, me, T0, S0, post, f"param_limit[upper={upper}]")
+    return (f"{PR.MOD}:{qual}", PR.MOD, qual, run)
+
+
+def target_parser_param():
+    qual = "Parser.param"
+
+    def run(sess: Session):
+        from pyvc.symex import Contract
+        from pyvc.values import TupleV, POS_INF
+        ex = _parser_executor(sess, contracts=())
+        num = PR.install_token_values(ex)
+        st = State()
+        me, T0, S0 = PR.new_parser(st)
+        _tok_float(st, T0)
+
+        def limit_contract(ex_, s, recv, args, kwargs, line):
+            PR.havoc_tokens(s, recv, strict=True)
+            r = fresh("limit", z3.RealSort())
+            from pyvc.values import NEG_INF
+            s.pc += [r >= NEG_INF, r <= POS_INF]
+            return [(Raised(PR.Exc("ParsingError|ValueError", line)), s.clone()), (r, s)]
+        ex.contracts["param_limit"] = Contract("param_limit", limit_contract)
+        outs = _pcall(ex, qual, st, me, args=[z3.IntVal(0), PR.Tok(fresh("key", PR.I))])
+
+        def post(val, s1):
+            T1, S1 = PR.cur(s1, me, "_tokens"), PR.cur(s1, me, "_stack")
+            sess.check("decreases", s1.pc, PR.progress_post(T1, T0), 0, label="tokens-strictly-consumed")
+            sess.check("frame", s1.pc, z3.And(S1.lo == S0.lo, PR.same_below(S1, S0)), 0, label="stack untouched")
+            ok = isinstance(val, TupleV) and len(val.items) == 4
+            sess.check("post", s1.pc, z3.BoolVal(ok), 0, label="returns (value, lower, upper, fixed)")
+            if ok:
+                first = z3.Select(T0.arr, T0.lo)
+                v, lo, up, fx = val.items
+                sess.check("post", s1.pc, z3.And(num(v) == PR.tnum(first), fx == (PR.kind(first) == PR.K["FixedNumber"])), 0, label="value = the number token, fixed iff it carries the F marker")
+                sess.check("post", s1.pc, z3.Implies(z3.Not(z3.And(T0.length() >= 2, PR.kind(z3.Select(T0.arr, T0.lo + 1)) == PR.K["ForwardSlash"])), z3.And(ex.lift(num(lo)) > POS_INF, ex.lift(num(up)) > POS_INF)), 0,
+                           label="omitted limits are NaN")
+        _check_exits(sess, outs, me, T0, S0, post, "param")
+    return (f"{PR.MOD}:{qual}", PR.MOD, qual, run)
+
+
+def target_parser_migrate():
+    qual = "Parser.migrate"
+
+    def run(sess: Session):
+        ex = _parser_executor(sess, contracts=())
+        PR.install_token_values(ex)
+        ex.consts["VERSION"] = z3.IntVal(1)
+        ex.inline["_v1_migrator"] = (PR.MOD, "Parser._v1_migrator")
+        orig_call = ex.call
+
+        def call(f, args, kwargs, starkw, s, node):
+            if isinstance(f, tuple) and f[0] == "boundmethod" and f[2] == "_v1_migrator" and not args:
+                return ex.call_method(f[1], "_v1_migrator", [], {}, None, s, node)
+            return orig_call(f, args, kwargs, starkw, s, node)
+        ex.call = call
+        st = State()
+        me, T0, S0 = PR.new_parser(st)
+        _tok_float(st, T0)
+        outs = _pcall(ex, qual, st, me, kwargs={"version": z3.IntVal(-1)})       # what parse_cdc passes
+
+        def post(val, s1):
+            T1, S1 = PR.cur(s1, me, "_tokens"), PR.cur(s1, me, "_stack")
+            sess.check("post", s1.pc, PR.progress_post(T1, T0, strict=False), 0, label="tokens: a suffix of the input")
+            sess.check("frame", s1.pc, z3.And(S1.lo == S0.lo, PR.same_below(S1, S0)), 0, label="stack untouched")
+        _check_exits(sess, outs, me, T0, S0, post, "migrate")
+    return (f"{PR.MOD}:{qual}", PR.MOD, qual, run)
+
+
+def target_parser_process_tail():
+    """Parser.process from `if self.get_stack_length() > 1:` on: with a stack of nodes only (what the main loop leaves),
+    the assembly never raises TypeError and builds a Series for Circuit(...)"""
+    qual = "Parser.process"
+
+    def run(sess: Session):
+        from pyvc.core import strip_docstring
+        from pyvc.symex import Contract
+        fn = find_def(PR.MOD, qual)
+        body = strip_docstring(fn.body)
+        start = None
+        for idx, s_ in enumerate(body):
+            if isinstance(s_, ast.If) and "get_stack_length() > 1" in ast.unparse(s_.test):
+                start = idx
+        if start is None:
+            sess.unsupported("assembly part of Parser.process not found", fn.lineno)
+            return
+        ex = _parser_executor(sess, contracts=())
+        made = []
+
+        def circuit_ctor(ex_, s, cls, args, kwargs, line):
+            a = args[0]
+            ex_.oblige("call-pre", s, PR.kind(a.id) == PR.K["Series"] if isinstance(a, PR.Tok) else z3.BoolVal(False), line, "Circuit(con): con is a Series")
+            made.append(a)
+            return [(PR.Tok(fresh("circuit", PR.I)), s)]
+        ex.contracts["new:Circuit"] = Contract("new:Circuit", circuit_ctor)
+        st = State()
+        me, T0, S0 = PR.new_parser(st)
+        st.pc.append(PR.nodes_only(S0))            # invariant of the top-level loop (each main_loop pushes one node onto nodes)
+
+        def inv(ex_, s, e, ghost):
+            S = PR.cur(s, me, "_stack")
+            el = s.deref(s.loc["elements"])
+            return z3.And(S.hi == S0.hi, S.lo >= S0.lo, S.lo <= S.hi, PR.same_below(S, S0, frm=S.lo) if False else z3.BoolVal(True), PR.nodes_only(S),
+                          PR.nodes_only(el) if hasattr(el, "arr") else z3.BoolVal(True), el.lo <= el.hi if hasattr(el, "arr") else z3.BoolVal(True))
+
+        def var(ex_, s, ghost):
+            return PR.cur(s, me, "_stack").length()
+
+        def prep(ex_, s):
+            it = s.deref(s.loc["elements"])
+            if isinstance(it, PyList) and not it.items:
+                s.heap[s.loc["elements"].addr] = PR.ListV.empty(PR.I, wrap=PR.Tok)
+        ex.loops[(qual, "not self.is_stack_empty()")] = LoopSpec(invariant=inv, variant=var, modifies=["self._stack:window", "elements", "elem"], prepare=prep)
+        sub = ast.FunctionDef(name=fn.name, args=fn.args, body=body[start:], decorator_list=[], lineno=fn.lineno, col_offset=0)
+        node = ast.parse("f()").body[0].value
+        node.lineno = fn.lineno
+        from pyvc.values import StrV
+        outs = ex.call_funcv(FuncV(sub, PR.MOD, qualname=qual, bound_self=me), [StrV(note="string")], {}, None, st, node)
+        n_ok = 0
+        for val, s1 in outs:
+            if isinstance(val, Raised):
+                ok = all(x in PR.PARSING_ERRORS for x in val.exc.name.split("|"))
+                sess.check("exc-class", s1.pc, z3.BoolVal(ok), val.exc.line, label=f"process-assembly:{val.exc.name}")
+                continue
+            n_ok += 1
+            S1 = PR.cur(s1, me, "_stack")
+            sess.check("post", s1.pc, S1.length() == 0, 0, label="stack empty on return")
+        sess.check("cover", [], z3.BoolVal(n_ok >= 2 and len(made) >= 2), 0, label="single-item and multi-item assembly paths")
+        sess.abstracted.append("Parser.process: the string prologue (strip / '[]' shortcuts) and the tokenizer call are not part of this target; the top-level `while self._tokens: self.main_loop()` keeps 'stack of nodes only' by main_loop's postcondition")
+    return (f"{PR.MOD}:{qual}[assembly]", PR.MOD, qual, run)
+
+
+def target_parser_process_loop():
+    """Parser.process, the tokenise / migrate / `while self._tokens: self.main_loop()` part: from an empty stack it leaves a
+    stack of nodes only, raising nothing but tokenizing/parsing errors and ValueError"""
+    qual = "Parser.process"
+
+    def run(sess: Session):
+        from pyvc.core import strip_docstring
+        from pyvc.symex import Contract
+        from pyvc.values import Obj, StrV
+        fn = find_def(PR.MOD, qual)
+        body = strip_docstring(fn.body)
+        part = None
+        for s_ in body:
+            if isinstance(s_, ast.If) and "string == ''" in ast.unparse(s_.test) and s_.orelse:
+                part = s_.orelse
+        if part is None:
+            sess.unsupported("tokenise/parse branch of Parser.process not found", fn.lineno)
+            return
+        ex = _parser_executor(sess, contracts=("main_loop",))
+        st = State()
+        me, T0, S0 = PR.new_parser(st)
+        st.pc.append(S0.length() == 0)             # Parser() starts with an empty stack
+
+        def tokenizer_ctor(ex_, s, cls, args, kwargs, line):
+            return [(s.alloc(Obj("TokenizerObj", {})), s)]
+        ex.contracts["new:Tokenizer"] = Contract("new:Tokenizer", tokenizer_ctor)
+        ex.classes["Tokenizer"] = ClassV("Tokenizer")
+
+        def tok_process(ex_, s, recv, args, kwargs, line):
+            # contract of Tokenizer.process (proved above): a list of tokens, or UnexpectedCharacter / ValueError
+            L = PR.ListV(fresh("toks", z3.ArraySort(PR.I, PR.I)), z3.IntVal(0), fresh("ntoks", PR.I), wrap=PR.Tok)
+            j = fresh("j", PR.I)
+            s2 = s.clone()
+            s.pc += [L.hi >= 0, z3.ForAll([j], z3.And(PR.kind(z3.Select(L.arr, j)) >= 1, PR.kind(z3.Select(L.arr, j)) <= len(PR.TK.TOKEN_CLASSES)))]
+            return [(Raised(PR.Exc("UnexpectedCharacter|ValueError", line)), s2), (s.alloc(L), s)]
+        ex.contracts["TokenizerObj.process"] = Contract("process", tok_process)
+
+        def migrate_contract(ex_, s, recv, args, kwargs, line):
+            s2 = s.clone()
+            PR.havoc_tokens(s, recv, strict=False)
+            return [(Raised(PR.Exc("ParsingError|ValueError", line)), s2), (NONE, s)]
+        ex.contracts["migrate"] = Contract("migrate", migrate_contract)
+
+        def inv(ex_, s, e, ghost):
+            S, T = PR.cur(s, me, "_stack"), PR.cur(s, me, "_tokens")
+            return z3.And(S.lo <= S.hi, T.lo <= T.hi, PR.nodes_only(S))
+
+        def var(ex_, s, ghost):
+            return PR.cur(s, me, "_tokens").length()
+        ex.loops[(qual, "self._tokens")] = LoopSpec(invariant=inv, variant=var, modifies=["self._stack", "self._tokens:window"])
+        sub = ast.FunctionDef(name=fn.name, args=fn.args, body=part, decorator_list=[], lineno=fn.lineno, col_offset=0)
+        node = ast.parse("f()").body[0].value
+        node.lineno = fn.lineno
+        outs = ex.call_funcv(FuncV(sub, PR.MOD, qualname=qual, bound_self=me), [StrV(note="string")], {"version": z3.IntVal(-1)}, None, st, node)
+        n_ok = 0
+        for val, s1 in outs:
+            if isinstance(val, Raised):
+                ok = all(x in PR.PARSING_ERRORS for x in val.exc.name.split("|"))
+                sess.check("exc-class", s1.pc, z3.BoolVal(ok), val.exc.line, label=f"process:{val.exc.name}")
+                continue
+            n_ok += 1
+            sess.check("post", s1.pc, PR.nodes_only(PR.cur(s1, me, "_stack")), 0, label="the stack holds nodes only (precondition of the assembly part)")
+        sess.check("cover", [], z3.BoolVal(n_ok >= 1), 0, label="normal-exit")
+    return (f"{PR.MOD}:{qual}[tokenise+loop]", PR.MOD, qual, run)
+
+
 def targets():
-    return [target_tokenizer_main_loop(), target_tokenizer_process(), target_parser_main_loop(),
+    return [target_tokenizer_main_loop(), target_tokenizer_process(), target_parser_main_loop(), target_parser_process_loop(),
+            target_parser_param_limit(), target_parser_param(), target_parser_migrate(), target_parser_process_tail(),
             target_parser_connection("LBracket", "RBracket", "Series"), target_parser_connection("LParen", "RParen", "Parallel"),
             target_parser_subcircuit()]
+
+
+# ------------------------------------------------------------------------------------------------ Parser.parameters
+def target_parser_parameters():
+    """Parser.parameters(Class): the contract that Parser.element (C03) assumes -- keys are the class's keys, the four maps
+    share one domain, given limits bracket the value -- plus frame (stack untouched), progress, exception classes."""
+    qual = "Parser.parameters"
+
+    def run(sess: Session):
+        from pyvc.symex import Contract
+        from pyvc.values import DictV, Key, Obj, PyDict, TupleV, POS_INF, NEG_INF, Ref
+        R, Bo = z3.RealSort(), z3.BoolSort()
+        ex = _parser_executor(sess, contracts=("subcircuit",))
+        num = PR.install_token_values(ex)
+        st = State()
+        me, T0, S0 = PR.new_parser(st)
+        _tok_float(st, T0)
+        class_keys = fresh("class_keys", z3.ArraySort(Key, Bo))
+        sub_keys = fresh("subcircuit_keys", z3.ArraySort(Key, Bo))
+        is_container = fresh("is_container", Bo)
+        kq = fresh("k", Key)
+        st.pc.append(z3.ForAll([kq], z3.Not(z3.And(z3.Select(class_keys, kq), z3.Select(sub_keys, kq)))))
+
+        class KeySet:
+            def __init__(self, dom):
+                self.dom = dom
+
+        def keyval(v):
+            return PR.tstr(v[1].id) if isinstance(v, tuple) and v and v[0] == "tokvalue" else v
+        # Class.get_default_values().keys() / Class.get_default_subcircuits().keys()
+        orig_ga = ex.getattr
+
+        def ga(base, attr, s, node=None):
+            if isinstance(base, ClassV) and base.name == "TheClass" and attr in ("get_default_values", "get_default_subcircuits"):
+                return ("classkeys", attr)
+            if isinstance(base, tuple) and base and base[0] == "keysof":
+                return ("boundmethod", base, attr)
+            if isinstance(base, Ref) and isinstance(s.deref(base), KeySet):
+                return ("boundmethod", base, attr)
+            return orig_ga(base, attr, s, node)
+        ex.getattr = ga
+        orig_call = ex.call
+
+        def call(f, args, kwargs, starkw, s, node):
+            line = getattr(node, "lineno", 0)
+            if isinstance(f, tuple) and f[0] == "classkeys":
+                return [(("keysof", class_keys if f[1] == "get_default_values" else sub_keys), s)]
+            if isinstance(f, tuple) and f[0] == "boundmethod" and isinstance(f[1], tuple) and f[1][0] == "keysof" and f[2] == "keys":
+                return [(f[1], s)]
+            if isinstance(f, tuple) and f[0] == "boundmethod" and isinstance(f[1], Ref) and isinstance(s.deref(f[1]), KeySet):
+                ks = s.deref(f[1])
+                if f[2] == "remove":
+                    k = keyval(args[0])
+                    outs = []
+                    s2 = s.clone()
+                    s2.pc.append(z3.Not(z3.Select(ks.dom, k)))
+                    if ex.feasible(s2):
+                        outs.append((Raised(PR.Exc("ValueError", line)), s2))
+                    s.pc.append(z3.Select(ks.dom, k))
+                    s.heap[f[1].addr] = KeySet(z3.Store(ks.dom, k, z3.BoolVal(False)))
+                    outs.append((NONE, s))
+                    return outs
+                if f[2] == "extend":
+                    other = args[0]
+                    kk = fresh("k", Key)
+                    s.heap[f[1].addr] = KeySet(z3.Lambda([kk], z3.Or(z3.Select(ks.dom, kk), z3.Select(other[1], kk))))
+                    return [(NONE, s)]
+            return orig_call(f, args, kwargs, starkw, s, node)
+        ex.call = call
+
+        def b_list(ex_, s, a, kw, n):
+            if not a:
+                return [(s.alloc(KeySet(z3.K(Key, z3.BoolVal(False)))), s)]
+            if isinstance(a[0], tuple) and a[0][0] == "keysof":
+                return [(s.alloc(KeySet(a[0][1])), s)]
+            raise Unsupported("list()")
+        ex.consts["list"] = ("builtin", b_list)
+        orig_evlist = ex.ev_List
+
+        def ev_List(e, s):
+            if not e.elts:
+                return [(s.alloc(KeySet(z3.K(Key, z3.BoolVal(False)))), s)]
+            return orig_evlist(e, s)
+        ex.ev_List = ev_List
+        ex.consts["issubclass"] = ("builtin", lambda ex_, s, a, kw, n: [(is_container, s)])
+        orig_truthy = ex.truthy
+
+        def truthy(v, s):
+            vv = s.deref(v) if isinstance(v, Ref) else v
+            if isinstance(vv, KeySet):
+                kk = fresh("k", Key)
+                return z3.Exists([kk], z3.Select(vv.dom, kk))
+            return orig_truthy(v, s)
+        ex.truthy = truthy
+        orig_len = ex.consts["len"][1]
+
+        def b_len(ex_, s, a, kw, n):
+            vv = s.deref(a[0])
+            if isinstance(vv, KeySet):
+                m = fresh("card", PR.I)
+                kk = fresh("k", Key)
+                s.pc += [m >= 0, (m == 0) == z3.Not(z3.Exists([kk], z3.Select(vv.dom, kk)))]
+                return [(m, s)]
+            return orig_len(ex_, s, a, kw, n)
+        ex.consts["len"] = ("builtin", b_len)
+        orig_contains = ex.contains
+
+        def contains(container, item, s, line):
+            c = s.deref(container)
+            item = keyval(item)
+            if isinstance(c, KeySet):
+                return z3.Select(c.dom, item)
+            if isinstance(c, PyDict) and not c.items:
+                return z3.BoolVal(False)
+            return orig_contains(container, item, s, line)
+        ex.contains = contains
+        orig_store = ex.store
+
+        def store(t, v, s, node):
+            if isinstance(t, ast.Subscript):
+                res = ex.ev_list([t.value, t.slice], s)
+                base, idx = res[0][0]
+                idx = keyval(idx)
+                c = s.deref(base)
+                val = num(v)
+                if isinstance(val, PR.Tok):
+                    val = val.id
+                if isinstance(val, type(NONE)):
+                    val = z3.IntVal(-1)             # subcircuits[key] = None (open)
+                if isinstance(c, DictV):
+                    s.heap[base.addr] = c.store(idx, ex.lift(val))
+                    return None
+            return orig_store(t, v, s, node)
+        ex.store = store
+        ex.getattr_label = None
+
+        def param_contract(ex_, s, recv, args, kwargs, line):
+            s2 = s.clone()
+            PR.havoc_tokens(s, recv, strict=True)
+            v, lo, up = (fresh(n_, R) for n_ in ("pvalue", "plower", "pupper"))
+            fx = fresh("pfixed", Bo)
+            NANV = POS_INF + 1
+            s.pc += [v >= NEG_INF, v <= POS_INF, z3.Or(lo == NANV, z3.And(lo >= NEG_INF, lo <= POS_INF)), z3.Or(up == NANV, z3.And(up >= NEG_INF, up <= POS_INF))]
+            return [(Raised(PR.Exc("ParsingError|ValueError", line)), s2), (TupleV([v, lo, up, fx]), s)]
+        ex.contracts["param"] = Contract("param", param_contract)
+        for n_ in ("ExpectedParameterIdentifier", "DuplicateParameterDefinition", "InvalidParameterDefinition", "TooManyParameterDefinitions",
+                   "InvalidParameterLowerLimit", "InvalidParameterUpperLimit"):
+            ex.classes[n_] = ClassV(n_)
+        ex.classes["Container"] = ClassV("Container")
+        NANV = POS_INF + 1
+
+        def maps(s):
+            loc = s.loc
+            return tuple(s.deref(loc[n_]) for n_ in ("parameters", "lower_limits", "upper_limits", "fixed_parameters", "subcircuits"))
+
+        def inv(ex_, s, e, ghost):
+            P_, LO_, UP_, FX_, SC_ = maps(s)
+            pk, sk = s.deref(s.loc["parameter_keys"]), s.deref(s.loc["subcircuit_keys"])
+            S, T = PR.cur(s, me, "_stack"), PR.cur(s, me, "_tokens")
+            k = fresh("k", Key)
+            return z3.And(
+                z3.ForAll([k], z3.And(LO_.has(k) == P_.has(k), UP_.has(k) == P_.has(k), FX_.has(k) == P_.has(k))),
+                z3.ForAll([k], z3.And(z3.Implies(P_.has(k), z3.And(z3.Select(class_keys, k), z3.Not(z3.Select(pk.dom, k)))),
+                                      z3.Implies(z3.Select(pk.dom, k), z3.Select(class_keys, k)),
+                                      z3.Implies(z3.Select(class_keys, k), z3.Or(P_.has(k), z3.Select(pk.dom, k))))),
+                z3.ForAll([k], z3.Implies(z3.Select(sk.dom, k), z3.And(is_container, z3.Select(sub_keys, k)))),
+                z3.ForAll([k], z3.Implies(SC_.has(k), z3.And(is_container, z3.Select(sub_keys, k), z3.Not(z3.Select(sk.dom, k))))),
+                z3.ForAll([k], z3.Implies(P_.has(k), z3.And(P_.get(k) >= NEG_INF, P_.get(k) <= POS_INF,
+                                                           z3.Or(LO_.get(k) == NANV, z3.And(NEG_INF <= LO_.get(k), LO_.get(k) <= P_.get(k))),
+                                                           z3.Or(UP_.get(k) == NANV, z3.And(P_.get(k) <= UP_.get(k), UP_.get(k) <= POS_INF))))),
+                S.lo == S0.lo, PR.same_below(S, S0), PR.progress_post(T, T0, strict=True))
+
+        def var(ex_, s, ghost):
+            return PR.cur(s, me, "_tokens").length()
+
+        def prep(ex_, s):
+            for n_, vs in (("parameters", R), ("lower_limits", R), ("upper_limits", R), ("fixed_parameters", Bo), ("subcircuits", PR.I)):
+                if isinstance(s.deref(s.loc[n_]), PyDict):
+                    s.heap[s.loc[n_].addr] = DictV.empty(Key, vs)
+        ex.loops[(qual, "parameter_keys or subcircuit_keys")] = LoopSpec(
+            invariant=inv, variant=var, prepare=prep,
+            modifies=["parameters", "lower_limits", "upper_limits", "fixed_parameters", "subcircuits", "parameter_keys", "subcircuit_keys", "self._tokens:window",
+                      "key", "value", "lower", "upper", "fixed", "token"])
+        orig_havoc_value = ex._havoc_value
+
+        def hv(v, tag):
+            if isinstance(v, KeySet):
+                return KeySet(fresh(tag, z3.ArraySort(Key, Bo)))
+            if isinstance(v, PR.Tok):
+                return PR.Tok(fresh(tag, PR.I))
+            return orig_havoc_value(v, tag)
+        ex._havoc_value = hv
+        outs = _pcall(ex, qual, st, me, args=[ClassV("TheClass")])
+
+        def post(val, s1):
+            T1, S1 = PR.cur(s1, me, "_tokens"), PR.cur(s1, me, "_stack")
+            sess.check("post", s1.pc, PR.progress_post(T1, T0, strict=False), 0, label="tokens: a suffix of the input")
+            sess.check("frame", s1.pc, z3.And(S1.lo == S0.lo, PR.same_below(S1, S0)), 0, label="stack untouched")
+            ok = isinstance(val, TupleV) and len(val.items) == 6
+            sess.check("post", s1.pc, z3.BoolVal(ok), 0, label="returns (label, parameters, lower_limits, upper_limits, fixed, subcircuits)")
+            if not ok:
+                return
+            ms = [s1.deref(x) for x in val.items[1:]]
+            if all(isinstance(m_, PyDict) and not m_.items for m_ in ms):
+                return          # no '{' block: all maps empty -- trivially within the contract
+            if not all(isinstance(m_, DictV) for m_ in ms):
+                sess.check("post", s1.pc, z3.BoolVal(False), 0, label="maps are dictionaries")
+                return
+            P_, LO_, UP_, FX_, SC_ = ms
+            k = fresh("k", Key)
+            sess.check("post", s1.pc, z3.ForAll([k], z3.And(LO_.has(k) == P_.has(k), UP_.has(k) == P_.has(k), FX_.has(k) == P_.has(k))), 0, label="the four parameter maps share one domain")
+            sess.check("post", s1.pc, z3.ForAll([k], z3.Implies(P_.has(k), z3.Select(class_keys, k))), 0, label="parameter keys are keys of the class (so Class(**parameters) cannot raise InvalidParameterKey)")
+            sess.check("post", s1.pc, z3.ForAll([k], z3.Implies(SC_.has(k), z3.Select(sub_keys, k))), 0, label="sub-circuit keys are sub-circuit keys of the class")
+            sess.check("post", s1.pc, z3.ForAll([k], z3.Implies(P_.has(k), z3.And(z3.Or(LO_.get(k) == NANV, LO_.get(k) <= P_.get(k)), z3.Or(UP_.get(k) == NANV, P_.get(k) <= UP_.get(k))))), 0,
+                       label="given limits bracket the value (lower <= value <= upper)")
+        _check_exits(sess, outs, me, T0, S0, post, "parameters")
+    return (f"{PR.MOD}:{qual}", PR.MOD, qual, run)
+
+
+_targets_without_parameters = targets
+
+
+def targets():      # noqa: F811
+    from . import c03_element
+    return _targets_without_parameters() + [target_parser_parameters()] + c03_element.targets()
